@@ -10,7 +10,9 @@ exact answers are compared with the floats to 1e-9 relative; (3) implementation-
 convexity, equal-members, duplication and rescaling invariance, direct weighted means, median rank, and a
 dump of the member blocks before/after to show representatives never change the core.
 """
+import collections
 import math
+import os
 import random
 import string
 from fractions import Fraction
@@ -18,10 +20,12 @@ from fractions import Fraction
 from harness import common
 from harness.common import Failure, lean_run, rat, ratlist
 
-PROP_MODULES = ["ArmiVerif.Props.C20"]
+PROP_MODULES = ["ArmiVerif.Props.C20", "ArmiVerif.Props.C20Mgr"]
 PARTIAL = ("floating-point rounding of the numpy sums is not modelled (exact rationals, compared to 1e-9 relative); "
-           "lumped-fission-product handling, deep copying of the template block and the 1-D slab/cylinder collections "
-           "are outside the model (CylindricalComponents*/Slab collections not tied); "
+           "lumped-fission-product handling and deep copying of the template block are outside the model; of the 1-D "
+           "cylinder / slab collections the area-weighted component average, the candidate choice and the consistency "
+           "refusals are tied (slab geometry itself has no fixture: its averaging routine is tied at function level); "
+           "pre-generated file copying is outside the model (only which groups are skipped); "
            "core-unchanged is tied by dumping the member blocks before and after (functional model is pure by construction)")
 ASSUMPTIONS = [
     "Block.getVolume/getNuclideNumberDensities/getVolumeFractions/getMass and parameter reads are inputs of the model "
@@ -146,7 +150,7 @@ def cmp_list(ctx, what, case, model_line, impl_vals, tol=TOL):
 
 def prepare_members(w, rng, trial):
     """draw a member set and perturb it (dyadic factors so that products stay short); returns (members, options)"""
-    nmem = rng.randint(2, 12)
+    nmem = rng.randint(1, 12)   # a group with a single member is its own average / median
     members = rng.sample(w.fuel, nmem)
     filt = rng.choice([None, ["fuel"], ["fuel"], ["igniter fuel"]])
     if filt == ["igniter fuel"]:
@@ -195,7 +199,40 @@ def prepare_members(w, rng, trial):
                 c.temperatureInC = cs.temperatureInC
     order = members + extra
     rng.shuffle(order)
-    return order, {"filter": filt, "fluxmode": fluxmode, "nmembers": len(order)}
+    opt = {"filter": filt, "fluxmode": fluxmode, "nmembers": len(order)}
+    # (continuation round) scenario classes, undone at the start of the next trial: a nuclide DECLARED with density exactly 0 in
+    # some / all members (build-up nuclide at BOL: trace weighting of its temperature), a component without mass in every
+    # member (gap: plain-mean fall-back of the component temperature)
+    for c, nd in getattr(w, "undo", []):
+        c.setNumberDensities(nd)
+    w.undo = []
+    r2 = random.Random(rng.random())
+    mode = r2.choice(["none", "some", "some", "all"])
+    if mode != "none":
+        nuc = r2.choice(["U235", "ZR96", "ZR91"])
+        for b in order:
+            if mode == "all" or r2.random() < 0.5:
+                for c in b.getComponents():
+                    if c.name == "fuel" and nuc in c.p.numberDensities:
+                        w.undo.append((c, dict(c.getNumberDensities())))
+                        c.setNumberDensity(nuc, 0.0)
+        opt["zeroDensityNuclide"] = [nuc, mode]
+    if r2.random() < 0.2:
+        for b in order:
+            for c in b.getComponents():
+                if c.name == "bond":
+                    w.undo.append((c, dict(c.getNumberDensities())))
+                    c.setNumberDensities({k: 0.0 for k in c.getNumberDensities()})
+        opt["masslessComponent"] = "bond"
+    return order, opt
+
+
+def temperature_nuclides(w, opt, subset):
+    out = []
+    for n in ([opt["zeroDensityNuclide"][0]] if "zeroDensityNuclide" in opt else []) + ["U238", w.allNucs[subset[0]], "NA23"]:
+        if n not in out and n in w.allNucs:
+            out.append(n)
+    return out[:3]
 
 
 def real_weight_inputs(w, bc, b):
@@ -292,6 +329,20 @@ def trial_collections(ctx, w, trial, oracle_only=False):
                     if diff or rep is mb or rep.p.percentBu != mb.p.percentBu:
                         ctx.fail("median-copy", "the median representative is a copy of the median member", case,
                                  observed={"differing": diff[:4], "same object": rep is mb, "bu": [rep.p.percentBu, mb.p.percentBu]})
+                    # nuclide temperatures of a median collection: the median member's own terms
+                    from armi.utils.units import TRACE_NUMBER_DENSITY
+                    for nuc in temperature_nuclides(w, opt, subset)[:2]:
+                        terms = comp_terms(mb, nuc)
+                        got = bc.avgNucTemperatures.get(nuc)
+                        tcase = dict(case, nuclide=nuc, medianBlock=mb.getName())
+                        tw = [Fraction((n or TRACE_NUMBER_DENSITY) if dec else 0.0) * Fraction(vf) for dec, n, vf, T in terms]
+                        if not oracle_only:
+                            ask(f"mtemp {rat(mb.getVolume())} {comps_line(terms)}",
+                                lambda line, tcase=tcase, got=got: cmp_list(ctx, "median nuclide temperature vs calcAvgNuclideTemperatures", tcase, line, [got], 1e-8))
+                        direct = float(sum(a * Fraction(T) for a, (_, _, _, T) in zip(tw, terms)) / sum(tw)) if sum(tw) else 0.0
+                        if got is None or not math.isclose(got, direct, rel_tol=1e-8, abs_tol=1e-9):
+                            ctx.fail("median-nuclide-temperature", "the nuclide temperatures of a median group are those of the median member "
+                                     "(atom-weighted over its components)", tcase, observed=got, expected=direct)
             continue
         # ---- averages
         if err == "reject":
@@ -345,23 +396,29 @@ def trial_collections(ctx, w, trial, oracle_only=False):
                 for jj, j in enumerate(subset):
                     xs = [c.getNuclideNumberDensities(nucs)[j] for c in candc]
                     oracle_mean(ctx, dict(ccase, nuclide=nucs[j]), ws, W, xs, got[jj], "component-density")
-                # component temperature: weights getWeight/height x mass
-                tw = [Fraction(wi) / Fraction(b.getHeight()) * Fraction(c.getMass()) for b, c, wi in zip(cands, candc, ws)]
+                # component temperature: weights getWeight/height x mass; zero weighted mass (gap): plain mean
+                wh = [Fraction(wi) / Fraction(b.getHeight()) for b, wi in zip(cands, ws)]
+                masses = [c.getMass() for c in candc]
+                tw = [a * Fraction(m) for a, m in zip(wh, masses)]
                 temps = [c.temperatureInC for c in candc]
+                if not oracle_only and sum(wh) != 0:
+                    ask(f"ctemp {ratlist(wh)} {ratlist(masses)} {ratlist(temps)}",
+                        lambda line, ccase=ccase, t=repc.temperatureInC: cmp_list(ctx, "component temperature vs _getAverageComponentTemperature", ccase, line, [t], 1e-8))
                 if sum(tw) != 0:
-                    if not oracle_only:
-                        ask(f"wmean {ratlist(tw)} {ratlist(temps)}",
-                            lambda line, ccase=ccase, t=repc.temperatureInC: cmp_list(ctx, "component temperature", ccase, line, [t], 1e-8))
                     direct = float(sum(a * Fraction(t) for a, t in zip(tw, temps)) / sum(tw))
-                    if not math.isclose(repc.temperatureInC, direct, rel_tol=1e-8, abs_tol=1e-9):
-                        ctx.fail("avg-component-temperature-weighted-mean",
-                                 "the averaged component temperature is the mean over the MATCHING components weighted by member weight x mass",
-                                 ccase, observed=repc.temperatureInC, expected=direct)
-                    if any(x < 0 for x in tw):
-                        ctx.count("excluded point: component of negative mass (negative weight), convexity not asserted")
-                    elif not (min(temps) - 1e-9 <= repc.temperatureInC <= max(temps) + 1e-9):
-                        ctx.fail("avg-component-temperature-convex", "averaged component temperature lies between the members' values",
-                                 ccase, observed=repc.temperatureInC, expected=[min(temps), max(temps)])
+                    ctx.count("component temperature: mass-weighted branch")
+                else:
+                    direct = math.fsum(temps) / len(temps)
+                    ctx.count("component temperature: zero-mass fall-back (plain mean)")
+                if not math.isclose(repc.temperatureInC, direct, rel_tol=1e-8, abs_tol=1e-9):
+                    ctx.fail("avg-component-temperature-weighted-mean",
+                             "the averaged component temperature is the mean over the MATCHING components weighted by member weight x mass",
+                             ccase, observed=repc.temperatureInC, expected=direct)
+                if any(x < 0 for x in tw):
+                    ctx.count("excluded point: component of negative mass (negative weight), convexity not asserted")
+                elif not (min(temps) - 1e-9 <= repc.temperatureInC <= max(temps) + 1e-9):
+                    ctx.fail("avg-component-temperature-convex", "averaged component temperature lies between the members' values",
+                             ccase, observed=repc.temperatureInC, expected=[min(temps), max(temps)])
         # ---- burnup (candidates only since fix 5b02166; the model filters by the valid flag, the oracle clause below
         #      reports `avg-burnup-includes-ineligible-members` if non-candidates ever enter again)
         hb = [[b.p.massHmBOL, b.p.percentBu] for b in order]
@@ -383,41 +440,69 @@ def trial_collections(ctx, w, trial, oracle_only=False):
                     ctx.fail(key, "the averaged burnup is the heavy-metal-weighted mean of the ELIGIBLE members' burnups", case,
                              observed=rep.p.percentBu, expected=expect)
         # ---- nuclide temperatures: weights w_b * n_cj(with trace) * volFrac_c * vol_b
-        from armi.utils.units import TRACE_NUMBER_DENSITY
-
-        for j in subset[:3]:
-            nuc = nucs[j]
-            tw, tt = [], []
-            for b, wi in zip(cands, ws):
-                wb = Fraction(wi)
-                vol = Fraction(b.getVolume())
-                for c, vf in b.getVolumeFractions():
-                    nd = c.p.numberDensities
-                    n = (nd[nuc] or TRACE_NUMBER_DENSITY) if nuc in nd else 0.0
-                    tw.append(wb * Fraction(n) * Fraction(vf) * vol)
-                    tt.append(c.temperatureInC)
-            got = bc.avgNucTemperatures.get(nuc)
-            tcase = dict(case, nuclide=nuc)
-            if sum(tw) == 0:
-                if got != 0.0:
-                    ctx.fail("avg-nuclide-temperature-absent", "a nuclide present nowhere has temperature 0", tcase, observed=got)
-                continue
-            if not oracle_only:
-                ask(f"wmean {ratlist(tw)} {ratlist(tt)}",
-                    lambda line, tcase=tcase, got=got: cmp_list(ctx, "average nuclide temperature vs calcAvgNuclideTemperatures", tcase, line, [got], 1e-8))
-            direct = float(sum(a * Fraction(t) for a, t in zip(tw, tt)) / sum(tw))
-            if not math.isclose(got, direct, rel_tol=1e-8, abs_tol=1e-9):
-                ctx.fail("avg-nuclide-temperature-weighted-mean",
-                         "the averaged nuclide temperature is the mean over (member, component) weighted by member weight x atoms",
-                         tcase, observed=got, expected=direct)
-            present = [t for t, wgt in zip(tt, tw) if wgt != 0]
-            if not (min(present) - 1e-7 <= got <= max(present) + 1e-7):
-                ctx.fail("avg-nuclide-temperature-convex", "averaged nuclide temperature lies between the members' values", tcase,
-                         observed=got, expected=[min(present), max(present)])
+        nuclide_temperature_checks(ctx, w, bc, order, win, cands, ws, temperature_nuclides(w, opt, subset), case, useP, ask, oracle_only)
         # ---- invariances on the real code (block level)
         if not byc and rng.random() < 0.5:
             invariance_oracles(ctx, w, bc, cls, order, opt, nucs, subset, rep, case)
     return req, checks, case0
+
+
+def comp_terms(b, nuc):
+    """raw per-component inputs of getBlockNuclideTemperatureAvgTerms for one nuclide: (declared, density, volume fraction, T)"""
+    out = []
+    for c, vf in b.getVolumeFractions():
+        nd = c.p.numberDensities
+        dec = nuc in nd
+        out.append((dec, float(nd[nuc]) if dec else 0.0, vf, c.temperatureInC))
+    return out
+
+
+def comps_line(terms):
+    return "[" + ",".join("[" + ",".join([("1" if d else "0"), rat(n), rat(vf), rat(t)]) + "]" for d, n, vf, t in terms) + "]"
+
+
+def nuclide_temperature_checks(ctx, w, bc, order, win, cands, ws, nucNames, case, useP, ask, oracle_only):
+    """average nuclide temperatures of a collection: model (raw per-component terms, trace densities) + direct oracle"""
+    from armi.utils.units import TRACE_NUMBER_DENSITY
+
+    isCand = {id(b) for b in cands}
+    for nuc in nucNames:
+        terms = {id(b): comp_terms(b, nuc) for b in order}
+        tw, tt = [], []
+        for b, wi in zip(cands, ws):
+            wb = Fraction(wi)
+            vol = Fraction(b.getVolume())
+            for dec, n, vf, T in terms[id(b)]:
+                nn = (n or TRACE_NUMBER_DENSITY) if dec else 0.0
+                tw.append(wb * Fraction(nn) * Fraction(vf) * vol)
+                tt.append(T)
+                if dec and n == 0.0:
+                    ctx.count("nuclide temperature: component declares the nuclide with zero density (trace)")
+        got = bc.avgNucTemperatures.get(nuc)
+        tcase = dict(case, nuclide=nuc)
+        if not oracle_only:
+            blks = "[" + ",".join("[" + ",".join([("1" if v else "0"), rat(b.getVolume()), rat(wp), comps_line(terms[id(b)])]) + "]"
+                                  for (v, vol, wp), b in zip(win, order)) + "]"
+            ask(f"ntemp {useP} {blks}",
+                lambda line, tcase=tcase, got=got: cmp_list(ctx, "average nuclide temperature vs calcAvgNuclideTemperatures", tcase, line, [got], 1e-8))
+        if sum(tw) == 0:
+            ctx.count("nuclide temperature: nuclide declared nowhere among the eligible members")
+            if got != 0.0:
+                ctx.fail("avg-nuclide-temperature-absent", "a nuclide present nowhere has temperature 0", tcase, observed=got)
+            continue
+        direct = float(sum(a * Fraction(t) for a, t in zip(tw, tt)) / sum(tw))
+        if not math.isclose(got, direct, rel_tol=1e-8, abs_tol=1e-9):
+            ctx.fail("avg-nuclide-temperature-weighted-mean",
+                     "the averaged nuclide temperature is the mean over (member, component) weighted by member weight x atoms",
+                     tcase, observed=got, expected=direct)
+        present = [t for t, wgt in zip(tt, tw) if wgt != 0]
+        if any(x < 0 for x in tw):
+            ctx.count("excluded point: negative (member, component) weight - hypothesis of avgNuclideTemperature_between_present fails, convexity not asserted")
+        else:
+            ctx.count("hypotheses of avgNuclideTemperature_between_present hold on the real members (non-negative volumes, weights, densities, fractions)")
+            if not (min(present) - 1e-7 <= got <= max(present) + 1e-7):
+                ctx.fail("avg-nuclide-temperature-convex", "averaged nuclide temperature lies between the members' values", tcase,
+                         observed=got, expected=[min(present), max(present)])
 
 
 def oracle_mean(ctx, case, ws, W, xs, got, what):
@@ -614,7 +699,8 @@ def trial_grouping(ctx, w, trial):
     tbounds = sorted({float(rng.randint(4, 9) * 100) for _ in range(ntemp)})
     csm._setBuGroupBounds(list(bounds))
     csm._setTempGroupBounds(list(tbounds))
-    types = rng.sample(string.ascii_uppercase + string.ascii_lowercase, rng.randint(1, 4))
+    # every fifth trial: more than 26 / up to all 52 one-letter XS types in use at once
+    types = rng.sample(string.ascii_uppercase + string.ascii_lowercase, rng.randint(27, 52) if trial % 5 == 4 else rng.randint(1, 4))
     twochar = (not bounds and not tbounds) and rng.random() < 0.4
     blocks = w.core.getBlocks()
     for a in w.core:
@@ -791,6 +877,674 @@ def run_env_letters(ctx, w):
     ctx.evaluations += len(req)
 
 
+# ------------------------------------------------------------------------------------------ continuation round: function-level ties
+def lean_check(ctx, what, req, impl, cases):
+    model = lean_run("XsGroup", req)
+    ctx.compare(what, cases, model, impl)
+    ctx.evaluations += len(req)
+    return model
+
+
+def run_bounds(ctx, w):
+    """_setBuGroupBounds / _setTempGroupBounds: exhaustive over short lists from a pool with the critical values"""
+    import itertools
+
+    csm = w.csm
+    req, impl, cases = [], [], []
+    poolBu = [-1.0, 0.0, 0.5, 5.0, 10.0, 50.0, 100.0, 100.5]
+    poolT = [-300.0, -273.15, -273.0, 0.0, 400.0, 900.0]
+    lists = [list(x) for n in range(0, 4) for x in itertools.product(poolBu, repeat=n)]
+    lists += [sorted(common.dyadic(ctx.rng, 0.5, 99, 2) for _ in range(ctx.rng.randint(4, 9))) for _ in range(ctx.pick(20, 200))]
+    for bs in lists:
+        try:
+            csm._setBuGroupBounds(list(bs))
+            got = csm._buGroupBounds
+            out = ratlist(got[:-1]) if got[-1] == float("inf") else "no-infinity-appended"
+        except ValueError:
+            out = "reject"
+        # the exact validation rule is tied by the model; what the interval theorem needs (accepted bounds ascending) is counted
+        if out != "reject":
+            ctx.count("hypothesis of firstLE_eq_of_interval on accepted burnup bounds: " +
+                      ("ascending" if all(a <= b for a, b in zip(bs, bs[1:])) else "NOT ascending"))
+        req.append(f"bubounds {ratlist(bs)}"); impl.append(out); cases.append({"buBounds": bs})
+        ctx.count("bounds: burnup " + ("accepted" if out != "reject" else "refused"))
+    tl = [list(x) for n in range(0, 4) for x in itertools.product(poolT, repeat=n)]
+    for bs in tl:
+        try:
+            csm._setTempGroupBounds(list(bs))
+            got = csm._tempGroupBounds
+            out = ratlist(got[:-1]) if got[-1] == float("inf") else "no-infinity-appended"
+        except ValueError:
+            out = "reject"
+        if out != "reject":
+            ctx.count("hypothesis of firstLE_eq_of_interval on accepted temperature bounds: " +
+                      ("ascending" if all(a <= b for a, b in zip(bs, bs[1:])) else "NOT ascending"))
+        req.append(f"tbounds {ratlist(bs)}"); impl.append(out); cases.append({"tempBounds": bs})
+        ctx.count("bounds: temperature " + ("accepted" if out != "reject" else "refused"))
+    csm._setBuGroupBounds([])
+    csm._setTempGroupBounds([])
+    lean_check(ctx, "group-bound validation vs _setBuGroupBounds/_setTempGroupBounds", req, impl, cases)
+    ctx.case(("bounds", "exhaustive short lists"), nontrivial=True)
+
+
+def store_settings(w, suffixes, useTemp):
+    from armi.physics.neutronics.const import CONF_CROSS_SECTION
+
+    with common.quiet():
+        for sfx in suffixes:
+            xs = w.csm._initializeXsID(sfx)
+            xs.xsTempIsotope = "U238" if useTemp else None
+            w.csm.cs[CONF_CROSS_SECTION][sfx] = xs
+
+
+def trial_updenv(ctx, w, trial):
+    """_updateEnvironmentGroups on a whole block list: many groups (more than 52: the setter must refuse), blocks exactly ON a
+    boundary, updates disabled, a single group"""
+    import bisect
+    import numpy as np
+
+    rng = random.Random(f"C20u-{ctx.seed}-{trial}")
+    csm = w.csm
+    nb = (0, 1, 3, 7, 25, 51, 52, 60)[trial % 8]
+    nt = rng.choice([0, 0, 1, 2]) if nb < 25 else rng.choice([0, 0, 0, 1])
+    bb = sorted({common.dyadic(rng, 0.5, 99, 3) for _ in range(nb)})
+    while len(bb) < nb:
+        bb = sorted(set(bb) | {common.dyadic(rng, 0.5, 99, 4)})
+    tb = sorted({float(rng.randint(4, 9) * 100) for _ in range(nt)})
+    csm._setBuGroupBounds(list(bb))
+    csm._setTempGroupBounds(list(tb))
+    useTemp = bool(tb) and rng.random() < 0.8
+    blocks = rng.sample(w.fuel, 24)
+    for b in blocks:
+        b.p.xsType = "A"
+        b.p.envGroupNum = rng.randrange(0, 4)
+        b.p.percentBu = rng.choice([0.0] + (rng.sample(bb, min(3, len(bb))) if bb else []) + [common.dyadic(rng, 0, 100, 2), bb[-1] + 0.5 if bb else 1.0])
+        if tb:
+            T = rng.choice([float(x) for x in tb] + [float(rng.randint(300, 1000))])
+            for c in b.getComponents():
+                if c.name == "fuel":
+                    c.temperatureInC = T
+    store_settings(w, ["A" + e for e in LETTERS], useTemp)
+    enabled = rng.random() < 0.85
+    temps = [float(np.ravel(w.xg.getBlockNuclideTemperature(b, "U238"))[0]) if useTemp else 0.0 for b in blocks]
+    before = [b.p.envGroupNum for b in blocks]
+    ebl = "[" + ",".join(f"[{rat(b.p.percentBu)},{'1' if useTemp else '0'},{rat(T)},{e}]" for b, T, e in zip(blocks, temps, before)) + "]"
+    case = {"trial": trial, "buBounds": bb if len(bb) < 9 else f"{len(bb)} bounds", "tempBounds": tb, "useTemp": useTemp, "enabled": enabled}
+    if not enabled:
+        csm.disableEnvGroupUpdates()
+    try:
+        with common.quiet():
+            csm._updateEnvironmentGroups(blocks)
+        out = "[" + ",".join(str(b.p.envGroupNum) for b in blocks) + "]"
+    except RuntimeError:
+        out = "reject"
+        ctx.count("whole-list update refused: more than 52 environment groups needed")
+    finally:
+        csm.enableEnvGroupUpdates()
+    ctx.count(f"whole-list update: {len(bb)+1} x {len(tb)+1} groups, enabled={enabled}")
+    if out != "reject":
+        single = not bb and not tb
+        for b, T, e0 in zip(blocks, temps, before):
+            if not enabled or single:
+                want = e0
+            else:
+                want = (bisect.bisect_left(tb, T) if (useTemp and tb) else 0) * (len(bb) + 1) + bisect.bisect_left(bb, b.p.percentBu)
+            if b.p.envGroupNum != want:
+                ctx.fail("env-group-interval", "a block's environment group is the interval (lower bound, upper bound] holding its burnup and "
+                         "temperature (a value ON a bound belongs to the group below); disabled updates / a single group change nothing",
+                         dict(case, block=b.getName(), bu=b.p.percentBu, tempC=T), observed=b.p.envGroupNum, expected=want)
+                break
+    ctx.case(("updenv", trial), nontrivial=True)
+    for b in blocks:
+        b.p.envGroup = "A"
+    csm._setBuGroupBounds([])
+    csm._setTempGroupBounds([])
+    return ([f"updenv {'T' if enabled else 'F'} {ratlist(bb)} {ratlist(tb)} {ebl}"],
+            [lambda line, case=case, out=out: line == out or ctx.disagree("whole-list environment update vs _updateEnvironmentGroups", case, line, out)], case)
+
+
+def run_eligible(ctx, w):
+    """getCandidateBlocks / hasFlags: every distinct block-flag pattern of the core x filters (none, empty, one word, several
+    words, several types, a type sharing only some words)"""
+    import copy
+
+    xg = w.xg
+    specs = [None, [], ["fuel"], ["feed fuel"], ["igniter fuel"], ["igniter fuel", "control"], ["shield"], ["axial shield", "fuel"],
+             ["grid plate"], ["moveable plenum"], ["inner fuel"], ["duct"], ["fuel", "fuel"], ["feed fuel", "outer fuel"], ["radial shield"]]
+    saved = [(b, b.getType()) for b in w.fuel[:3]]
+    w.fuel[0].setType("igniter fuel")
+    w.fuel[1].setType("feed fuel")
+    w.fuel[2].setType("fuel")
+    byflags = {}
+    for b in w.core.getBlocks():
+        byflags.setdefault(int(b.p.flags), b)
+    blocks = list(byflags.values())
+    with common.quiet():
+        bare = copy.deepcopy(w.nonfuel[0])
+    bare.p.flags = w.Flags(0)
+    blocks.append(bare)
+    req, impl, cases = [], [], []
+    for spec in specs:
+        bc = xg.AverageBlockCollection(w.allNucs, validBlockTypes=spec)
+        types = bc._validRepresentativeBlockTypes
+        for b in blocks:
+            bc.append(b)
+        cands = bc.getCandidateBlocks()
+        tl = [int(t) for t in types] if types else []
+        for b in blocks:
+            got = any(x is b for x in cands)
+            f = int(b.p.flags)
+            want = True if not tl else any(t == 0 or (f != 0 and (f & t) == t) for t in tl)
+            case = {"blockType": b.getType(), "flags": str(b.p.flags), "validBlockTypes": spec}
+            if got != want:
+                ctx.fail("eligibility-by-block-type", "a member is eligible exactly when no filter is set or it carries ALL the flags of one listed block type",
+                         case, observed=got, expected=want)
+            req.append(f"eligible {f} [{','.join(map(str, tl))}]"); impl.append("T" if got else "F"); cases.append(case)
+            ctx.count(f"eligibility: filter={'none' if not tl else len(tl)} -> {'eligible' if got else 'not eligible'}")
+            ctx.case(("eligible", str(spec), f), nontrivial=True)
+    for b, t in saved:
+        b.setType(t)
+    lean_check(ctx, "eligibility vs getCandidateBlocks/hasFlags", req, impl, cases)
+
+
+def trial_nextxs(ctx, w, trial):
+    """getNextAvailableXsTypes: few / 26 / 51 / all 52 one-letter types allocated, two-letter types present, exclusions"""
+    rng = random.Random(f"C20n-{ctx.seed}-{trial}")
+    csm = w.csm
+    allBlocks = w.core.getBlocks(includeAll=True)
+    k = (1, 5, 26, 30, 51, 52, 47, 12)[trial % 8]
+    types = rng.sample(LETTERS, k) + [a + b for a, b in zip(rng.sample(LETTERS, 2), rng.sample(LETTERS, 2))]
+    for i, b in enumerate(allBlocks):
+        b.p.xsType = types[i % len(types)]
+    excluded = rng.choice([None, [], rng.sample(LETTERS, rng.randint(1, 6))])
+    left = 52 - len(set(types[:k]) | set(excluded or []))
+    howMany = rng.choice([1, 1, 2, 5, max(left, 1), left + 1, 60])
+    try:
+        with common.quiet():
+            got = csm.getNextAvailableXsTypes(howMany, excludedXSTypes=excluded)
+        out = codes("".join(got)) if all(len(x) == 1 for x in got) else "multi-char-type"
+    except ValueError:
+        got, out = None, "reject"
+    alloc = sorted({b.p.xsType for b in allBlocks} | set(excluded or []))
+    case = {"trial": trial, "allocatedOneLetter": k, "excluded": excluded, "howMany": howMany}
+    ctx.count(f"next XS types: {k} allocated, {'refused' if got is None else 'granted'}")
+    if got is None:
+        if left >= howMany:
+            ctx.fail("next-xs-types", "unallocated XS types are handed out while enough are left", case, observed="ValueError", expected=left)
+    elif (len(got) != howMany or len(set(got)) != len(got) or any(x not in LETTERS for x in got) or any(x in alloc for x in got)):
+        ctx.fail("next-xs-types", "handed-out XS types are admissible, pairwise distinct, unallocated and not excluded", case, observed=got)
+    for b in allBlocks:
+        b.p.xsType = "A"
+    ctx.case(("nextxs", trial), nontrivial=True)
+    return ([f"nextxs {howMany} [{','.join(codes(a) for a in alloc)}]"],
+            [lambda line, case=case, out=out: line == out or ctx.disagree("next available XS types vs getNextAvailableXsTypes", case, line, out)], case)
+
+
+def trial_area_average(ctx, w, trial):
+    """_getAverageComponentNucs of the 1-D cylinder AND slab collections at function level: arbitrary component lists, weights
+    including zero and all-zero (documented fall-back: zero densities)"""
+    rng = random.Random(f"C20a-{ctx.seed}-{trial}")
+    xg = w.xg
+    cls = (xg.CylindricalComponentsAverageBlockCollection, xg.SlabComponentsAverageBlockCollection)[trial % 2]
+    bc = cls(w.allNucs)
+    n = rng.randint(1, 6)
+    name = rng.choice(["fuel", "clad", "bond", "duct", "coolant"])
+    comps = [next(c for c in b.getComponents() if c.name == name) for b in rng.sample(w.fuel, n)]
+    mode = rng.choice(["positive", "positive", "some-zero", "all-zero"])
+    bw = [0.0 if (mode == "all-zero" or (mode == "some-zero" and i % 2 == 0)) else common.dyadic(rng, 0.5, 300, 3) for i in range(n)]
+    names, dens = bc._getAverageComponentNucs(comps, bw)
+    areas = [c.getArea() for c in comps]
+    req, checks = [], []
+    case = {"trial": trial, "class": cls.__name__, "component": name, "weights": mode, "n": n}
+    ctx.count(f"area-weighted component average: weights {mode}")
+    tot = math.fsum(b * a for b, a in zip(bw, areas))
+    for nm in rng.sample(list(names), min(3, len(names))):
+        xs = [c.getNuclideNumberDensities([nm])[0] for c in comps]
+        got = float(dens[list(names).index(nm)])
+        exp = math.fsum(b * a * x for b, a, x in zip(bw, areas, xs)) / tot if tot > 0 else 0.0
+        ncase = dict(case, nuclide=nm)
+        if not math.isclose(got, exp, rel_tol=1e-9, abs_tol=1e-30):
+            ctx.fail("avg-1d-component-density-weighted-mean", "the 1-D component average is the mean weighted by member weight x component area "
+                     "(zero when the total weight is zero)", ncase, observed=got, expected=exp)
+        if tot > 0 and not (min(xs) * (1 - 1e-12) <= got <= max(xs) * (1 + 1e-12)):
+            ctx.fail("avg-1d-component-density-convex", "the 1-D component average lies between the members' values", ncase, observed=got,
+                     expected=[min(xs), max(xs)])
+        req.append(f"areaavg {ratlist(bw)} {ratlist(areas)} {ratlist(xs)}")
+        checks.append(lambda line, ncase=ncase, got=got: cmp_list(ctx, "area-weighted average vs _getAverageComponentNucs", ncase, line, [got]))
+    ctx.case(("areaavg", trial), nontrivial=True)
+    return req, checks, case
+
+
+def trial_cylinder(ctx, w, trial, oracle_only=False):
+    """CylindricalComponentsAverageBlockCollection (+ duct-heterogeneous variant) end to end on members with like components"""
+    rng = random.Random(f"C20y-{ctx.seed}-{trial}")
+    xg = w.xg
+    order, opt = prepare_members(w, rng, trial)
+    sig = lambda b: tuple((c.name, c.getDimension("mult")) for c in sorted(b.getComponents()))
+    ref = sig(order[0])
+    order = [b for b in order if sig(b) == ref]
+    if opt["fluxmode"] == "mixed":
+        for b in order:
+            b.p.flux = float(rng.randint(1, 2 ** 20)) * 2.0 ** 20
+        opt["fluxmode"] = "positive"
+    nucs = w.allNucs
+    het = trial % 4 == 3
+    cls = xg.CylindricalComponentsDuctHetAverageBlockCollection if het else xg.CylindricalComponentsAverageBlockCollection
+    bc = cls(nucs, validBlockTypes=opt["filter"])
+    bc.weightingParam = rng.choice([None, "flux"])
+    for b in order:
+        bc.append(b)
+    case = dict(opt, trial=trial, collection=cls.__name__, weightingParam=bc.weightingParam, members=[b.getName() for b in order])
+    cands = bc.getCandidateBlocks()
+    req, checks = [], []
+    if not cands:
+        return req, checks, case
+    before = [dump_block(b) for b in order]
+    try:
+        with common.quiet():
+            rep = bc.createRepresentativeBlock()
+    except ValueError as e:
+        ctx.count("1-D cylinder collection refused (inconsistent components)")
+        return req, checks, case
+    if before != [dump_block(b) for b in order]:
+        ctx.fail("representative-changes-core", "creating a representative block never changes the blocks of the core", case,
+                 observed="member state differs after createRepresentativeBlock")
+    ctx.case(("cylinder", trial), nontrivial=True)
+    ctx.count(f"collection {cls.__name__} param={bc.weightingParam} filter={opt['filter']}")
+    useP = "T" if bc.weightingParam else "F"
+    win = [real_weight_inputs(w, bc, b) for b in order]
+    ws = [((b.p[bc.weightingParam] or 1.0) if bc.weightingParam else 1.0) * (b.getVolume() or 1.0) for b in cands]
+    # template = candidate of median (block-average temperature, name)
+    tmpl = bc._selectCandidateBlock()
+    keyed = sorted((b.getAverageTempInC(), b.getName()) for b in cands)
+    if (tmpl.getAverageTempInC(), tmpl.getName()) != keyed[len(keyed) // 2] or not any(tmpl is b for b in cands):
+        ctx.fail("cylinder-template-median-temperature", "the template of the 1-D representative is the eligible member of median block-average temperature",
+                 case, observed=tmpl.getName(), expected=keyed[len(keyed) // 2][1])
+    if not oracle_only:
+        names = "[" + ",".join(codes(b.getName()) for b in order) + "]"
+        blks = "[" + ",".join(blk_line(v, 1.0, 0.0, [b.getAverageTempInC()]) for (v, vol, wp), b in zip(win, order)) + "]"
+        idx = [i for i, b in enumerate(order) if b is tmpl]
+        req.append(f"median F {blks} {names}")
+        checks.append(lambda line, idx=idx: (line == str(idx[0]) if idx else False)
+                      or ctx.disagree("1-D template block vs _selectCandidateBlock", case, line, idx))
+    # component densities: matched by NAME; weights member weight x component area
+    for repc in rep.getComponents():
+        candc = [[c for c in b.getComponents() if c.name == repc.name] for b in cands]
+        if any(len(x) != 1 for x in candc):
+            continue
+        candc = [x[0] for x in candc]
+        areas = [c.getArea() for c in candc]
+        tot = math.fsum(a * wi for a, wi in zip(areas, ws))
+        present = sorted(set().union(*[set(c.getNuclides()) for c in candc]))
+        for nm in rng.sample(present, min(2, len(present))):
+            xs = [c.getNuclideNumberDensities([nm])[0] for c in candc]
+            got = repc.getNuclideNumberDensities([nm])[0]
+            ccase = dict(case, component=repc.name, nuclide=nm)
+            exp = math.fsum(a * wi * x for a, wi, x in zip(areas, ws, xs)) / tot if tot > 0 else 0.0
+            if not math.isclose(got, exp, rel_tol=1e-9, abs_tol=1e-30):
+                ctx.fail("avg-1d-component-density-weighted-mean", "the 1-D component average is the mean over the MATCHING components weighted by "
+                         "member weight x component area", ccase, observed=got, expected=exp)
+            if tot > 0 and not (min(xs) * (1 - 1e-12) <= got <= max(xs) * (1 + 1e-12)):
+                ctx.fail("avg-1d-component-density-convex", "the 1-D component average lies between the members' values", ccase,
+                         observed=got, expected=[min(xs), max(xs)])
+            if not oracle_only:
+                req.append(f"areaavg {ratlist(ws)} {ratlist(areas)} {ratlist(xs)}")
+                checks.append(lambda line, ccase=ccase, got=got: cmp_list(ctx, "1-D component densities vs CylindricalComponentsAverageBlockCollection", ccase, line, [got]))
+    # burnup
+    hw = [b.p.massHmBOL * wi / b.getVolume() for b, wi in zip(cands, ws)]
+    if math.fsum(hw) > 0:
+        expect = math.fsum(h * b.p.percentBu for h, b in zip(hw, cands)) / math.fsum(hw)
+        if not math.isclose(rep.p.percentBu, expect, rel_tol=1e-9, abs_tol=1e-12):
+            ctx.fail("avg-burnup-hm-weighted", "the averaged burnup is the heavy-metal-weighted mean of the ELIGIBLE members' burnups", case,
+                     observed=rep.p.percentBu, expected=expect)
+    if not oracle_only:
+        hb = [[b.p.massHmBOL, b.p.percentBu] for b in order]
+        blks = "[" + ",".join(blk_line(v, vol, wp, x) for (v, vol, wp), x in zip(win, hb)) + "]"
+        req.append(f"burnup {useP} {blks}")
+        checks.append(lambda line, t=rep.p.percentBu: cmp_list(ctx, "1-D collection: burnup", case, line, [t]))
+    if not het:
+        def ask(line, fn):
+            req.append(line); checks.append(fn)
+        nuclide_temperature_checks(ctx, w, bc, order, win, cands, ws, temperature_nuclides(w, opt, [0])[:2], case, useP, ask, oracle_only)
+    return req, checks, case
+
+
+def group_table(w, csm, blocks, bp):
+    """makeCrossSectionGroups() as (key, collection, [(token, block, isCandidate)]) with token = index of a core block, or
+    len(core) + position of the blueprint block a copy was made from (copies carry no parent: the j-th copy in a group is the
+    j-th blueprint block, in blueprint order, with that identifier)"""
+    with common.quiet():
+        groups = csm.makeCrossSectionGroups()
+    pos = {id(b): i for i, b in enumerate(blocks)}
+    bpBySuffix = {}
+    for n, (_, _, b) in enumerate(bp):
+        bpBySuffix.setdefault(b.getMicroSuffix(), []).append(n)
+    table = []
+    for k, coll in groups.items():
+        cands = coll.getCandidateBlocks()
+        rows = []
+        src = iter(bpBySuffix.get(k, []))
+        for b in coll:
+            tok = pos[id(b)] if id(b) in pos else len(blocks) + next(src, -1)
+            rows.append((tok, b, any(x is b for x in cands)))
+        table.append((k, coll, rows))
+    return table
+
+
+def trial_manager(ctx, w, trial, oracle_only=False):
+    """CrossSectionGroupManager.createRepresentativeBlocks end to end, twice (interactBOC then interactEveryNode), then with block
+    types changed in between: groups without any eligible member (re-assigned to a represented environment group of their XS type, or
+    left alone when there is none), pre-generated types, median / average types, blueprint-only blocks, burnup groups."""
+    from armi.physics.neutronics.crossSectionGroupManager import LatticePhysicsFrequency
+
+    rng = random.Random(f"C20m-{ctx.seed}-{trial}")
+    csm = w.csm
+    blocks = w.core.getBlocks()
+    for fn in ("ISOXA", "rzmflxYA"):
+        if not os.path.exists(fn):
+            open(fn, "w").close()
+    structure = ("single", "burnup", "burnup")[trial % 3]
+    bounds = [] if structure == "single" else sorted({common.dyadic(rng, 2, 20, 1) for _ in range(rng.choice([1, 2, 3]))})
+    csm._setBuGroupBounds(list(bounds))
+    csm._setTempGroupBounds([])
+    pool = rng.sample("ABCEFGHabcq", rng.randint(2, 4)) + rng.sample("DXY", rng.randint(0, 2))
+    highBu = set(rng.sample(pool, 1)) if bounds else set()   # types whose fuel is all above the first bound: their env-A members have no candidate
+    flux = rng.choice([0.0, None])
+    for a in w.core:
+        t = rng.choice(pool)
+        for b in a:
+            b.p.xsType = t
+            b.p.envGroup = "A"
+            if b.hasFlags(w.Flags.FUEL):
+                lo = bounds[0] + 0.5 if t in highBu else 0.0
+                b.p.percentBu = rng.choice([lo, lo] + [x for x in bounds if x >= lo] + [common.dyadic(rng, lo, 25, 2)])
+            else:
+                b.p.percentBu = 0.0
+            b.p.flux = 0.0 if flux == 0.0 else float(rng.randint(1, 2 ** 20)) * 2.0 ** 20
+    orphan = rng.choice("RSTUVW")
+    for b in rng.sample(w.nonfuel, rng.randint(1, 12)):
+        b.p.xsType = orphan                      # a type carried by non-fuel blocks only: unrepresented, nowhere to go
+    bp = [(a.getType(), i, b) for a in w.r.blueprints.assemblies.values() for i, b in enumerate(a)]
+    case = {"trial": trial, "structure": structure, "buBounds": bounds, "types": pool, "orphanType": orphan, "highBurnupTypes": sorted(highBu)}
+    req, checks = [], []
+    nucs = w.allNucs
+    subset = sorted(rng.sample(range(len(nucs)), 4))
+
+    def one_call(label, hook):
+        tbl = group_table(w, csm, blocks, bp)
+        pregen = [k for k, _, _ in tbl if csm.xsTypeIsPregenerated(k)]
+        flat = [(k, tok, b, v) for k, _, rows in tbl for tok, b, v in rows]
+        before = {id(b): dump_block(b) for b in blocks}
+        ck = "[" + ",".join(codes(b.getMicroSuffix()) for b in blocks) + "]"
+        bk = "[" + ",".join(codes(b.getMicroSuffix()) for _, _, b in bp) + "]"
+        ccase = dict(case, call=label)
+        try:
+            with common.quiet():
+                hook()
+        except Exception as e:  # noqa
+            ctx.fail("manager-raises", "creating the representative blocks of a core succeeds", ccase, observed=repr(e))
+            return None
+        reps = list(csm.representativeBlocks.keys())
+        unrep = list(csm._unrepresentedXSIDs)
+        ctx.count(f"manager call ({label}): {len(reps)} represented, {len(unrep)} unrepresented, {len(pregen)} pre-generated groups")
+        # ---- model
+        if not oracle_only:
+            mb = "[" + ",".join(f"[{ord(k[0])},{ord(k[1])},{1 if v else 0}]" for k, tok, b, v in flat) + "]"
+            envAfter = "[" + ",".join(str(ord(b.p.envGroup)) if tok < len(blocks) else "_" for k, tok, b, v in flat) + "]"
+            implLine = "[" + ",".join(codes(k) for k in reps) + "] [" + ",".join(codes(k) for k in unrep) + "]"
+            req.append(f"mgr {mb} [{','.join(codes(k) for k in pregen)}]")
+
+            def chk(line, implLine=implLine, envAfter=envAfter, ccase=ccase):
+                parts = line.split(" ")
+                if len(parts) != 3 or " ".join(parts[:2]) != implLine:
+                    return ctx.disagree("represented / unrepresented groups vs createRepresentativeBlocks", ccase, line[:300], implLine[:300])
+                me, ie = common.parse_list(parts[2]), common.parse_list(envAfter)
+                bad = [i for i, (a, b) in enumerate(zip(me, ie)) if b != "_" and a != b]
+                if bad or len(me) != len(ie):
+                    return ctx.disagree("environment groups after _modifyUnrepresentedXSIDs", dict(ccase, position=bad[:3]), [me[i] for i in bad[:3]], [ie[i] for i in bad[:3]])
+                return True
+            checks.append(chk)
+            # two-pass grouping (core, then blueprint-only copies) at function level
+            implG = "[" + ",".join("[" + codes(k) + ",[" + ",".join(str(tok) for tok, _, _ in rows) + "]]" for k, _, rows in tbl) + "]"
+            req.append(f"mkgroups {ck} {bk}")
+            checks.append(lambda line, implG=implG, ccase=ccase: line == implG
+                          or ctx.disagree("groups (core + blueprint-only blocks) vs makeCrossSectionGroups", ccase, line[:300], implG[:300]))
+        # ---- oracle: which groups get a representative
+        want = sorted(k for k, coll, rows in tbl if any(v for _, _, v in rows) and k not in pregen)
+        if reps != want:
+            ctx.fail("represented-groups", "exactly the groups with an eligible member (and no pre-generated cross sections) get a representative, "
+                     "ordered by identifier", ccase, observed=reps, expected=want)
+        # ---- oracle: partition of the core blocks
+        cnt = collections.Counter(tok for k, tok, b, v in flat if tok < len(blocks))
+        if any(cnt[i] != 1 for i in range(len(blocks))):
+            ctx.fail("groups-partition", "every block of the core is in exactly one group", ccase,
+                     observed=[blocks[i].getName() for i in range(len(blocks)) if cnt[i] != 1][:5])
+        for k, tok, b, v in flat:
+            if tok >= len(blocks) and any(kk == k and t2 < len(blocks) for kk, t2, _, _ in flat):
+                ctx.fail("blueprint-block-joins-core-group", "blueprint-only blocks are grouped only where no core block has the identifier", ccase,
+                         observed=k)
+                break
+        # ---- oracle: frame condition
+        repset = set(reps)
+        envsOf = {}
+        for k in reps:
+            envsOf.setdefault(k[0], set()).add(k[1])
+        for k, tok, b, v in flat:
+            if tok >= len(blocks):
+                continue
+            after = dump_block(b)
+            bef = before[id(b)]
+            if k in unrep and k[0] in envsOf:
+                wantEnv = sorted(envsOf[k[0]])
+                ctx.count("manager: block of an unrepresented group re-assigned to a represented environment group")
+            else:
+                wantEnv = [bef[4]]
+            same = after[:4] == bef[:4] and after[6:] == bef[6:] and after[4] in wantEnv
+            if not same:
+                diff = [i for i, (x, y) in enumerate(zip(after, bef)) if x != y]
+                ctx.fail("representative-changes-core", "creating representatives never changes the blocks of the core (only the environment "
+                         "group of blocks whose group has no eligible member moves, to a represented group of the same XS type)",
+                         dict(ccase, block=b.getName(), group=k, changedFields=diff), observed=after[4], expected=wantEnv)
+                break
+        # ---- oracle: the representatives themselves (up to 4 groups)
+        snaps = {}
+        for k, coll, rows in tbl:
+            if k not in repset:
+                continue
+            rep = csm.representativeBlocks[k]
+            cands = [b for _, b, v in rows if v]
+            d = rep.getNuclideNumberDensities(nucs)
+            snaps[k] = ([d[j] for j in subset], rep.p.percentBu, csm.avgNucTemperatures.get(k, {}).get("U238"))
+            if len(snaps) > 4:
+                continue
+            gcase = dict(ccase, group=k, collection=type(coll).__name__, members=len(rows), eligible=len(cands))
+            ws = [((b.p[coll.weightingParam] or 1.0) if coll.weightingParam else 1.0) * (b.getVolume() or 1.0) for b in cands]
+            if isinstance(coll, w.xg.MedianBlockCollection):
+                keyed = sorted((b.p.percentBu * wi, b.getName()) for b, wi in zip(cands, ws))
+                mbs = [b for b, wi in zip(cands, ws) if (b.p.percentBu * wi, b.getName()) == keyed[len(keyed) // 2]]
+                ok = any(all(math.isclose(x, y, rel_tol=1e-12, abs_tol=0.0) for x, y in zip(d, m.getNuclideNumberDensities(nucs)))
+                         and rep.p.percentBu == m.p.percentBu for m in mbs)
+                if not ok:
+                    ctx.fail("median-copy", "the median representative is a copy of the median member", gcase, observed=str(rep))
+            elif isinstance(coll, w.xg.AverageBlockCollection):
+                W = math.fsum(ws)
+                for jj, j in enumerate(subset):
+                    xs = [b.getNuclideNumberDensities(nucs)[j] for b in cands]
+                    oracle_mean(ctx, dict(gcase, nuclide=nucs[j]), ws, W, xs, d[j], "density")
+                hw = [b.p.massHmBOL * wi / b.getVolume() for b, wi in zip(cands, ws)]
+                if math.fsum(hw) > 0:
+                    expect = math.fsum(h * b.p.percentBu for h, b in zip(hw, cands)) / math.fsum(hw)
+                    if not math.isclose(rep.p.percentBu, expect, rel_tol=1e-9, abs_tol=1e-12):
+                        ctx.fail("avg-burnup-hm-weighted", "the averaged burnup is the heavy-metal-weighted mean of the ELIGIBLE members' burnups",
+                                 gcase, observed=rep.p.percentBu, expected=expect)
+        ctx.case(("manager", trial, label), nontrivial=True)
+        return snaps
+
+    def close(a, b):
+        return a.keys() == b.keys() and all(
+            all(math.isclose(x, y, rel_tol=1e-11, abs_tol=1e-30) for x, y in zip(a[k][0], b[k][0]))
+            and math.isclose(a[k][1], b[k][1], rel_tol=1e-11, abs_tol=1e-30)
+            and (a[k][2] is None) == (b[k][2] is None) and (a[k][2] is None or math.isclose(a[k][2], b[k][2], rel_tol=1e-9)) for k in a)
+
+    csm._latticePhysicsFrequency = LatticePhysicsFrequency.BOC
+    s1 = one_call("interactBOC", lambda: csm.interactBOC(0))
+    csm._latticePhysicsFrequency = LatticePhysicsFrequency.everyNode
+    s2 = one_call("interactEveryNode, nothing changed", lambda: csm.interactEveryNode(0, 1)) if s1 is not None else None
+    if s1 is not None and s2 is not None and not close(s1, s2):
+        ctx.fail("representatives-built-twice-differ", "building the representatives again on an unchanged core gives the same representatives",
+                 case, observed={k: v[1] for k, v in s2.items()}, expected={k: v[1] for k, v in s1.items()})
+    # block types change between two calls: some eligible members stop being fuel, some groups lose all of them
+    changed = []
+    victims = rng.sample(w.fuel, rng.randint(3, 30))
+    for b in victims:
+        changed.append((b, b.getType()))
+        b.setType("reflector")
+    if s2 is not None:
+        one_call("interactEveryNode, block types changed", lambda: csm.interactEveryNode(0, 2))
+    for b, t in changed:
+        b.setType(t)
+    for b in blocks:
+        b.p.xsType = "A"
+        b.p.envGroup = "A"
+    csm._setBuGroupBounds([])
+    csm._latticePhysicsFrequency = LatticePhysicsFrequency.BOC
+    return req, checks, case
+
+
+def trial_modified(ctx, w, trial, oracle_only=False):
+    """_getModifiedReprBlocks (createRepresentativeBlocksUsingExistingBlocks): new XS ids for perturbed copies of representative
+    blocks - new types must be unallocated and distinct per original type, the id map one-to-one, untouched blocks unchanged"""
+    from armi.physics.neutronics.const import CONF_CROSS_SECTION
+
+    rng = random.Random(f"C20x-{ctx.seed}-{trial}")
+    csm = w.csm
+    blocks = w.core.getBlocks()
+    allBlocks = w.core.getBlocks(includeAll=True)
+    k = (2, 4, 7, 20, 49, 51)[trial % 6]
+    for fn in ("ISOXA", "rzmflxYA"):
+        if not os.path.exists(fn):
+            open(fn, "w").close()
+    # 'Z' is the 1-D cylinder type of the fixture: it (rightly) refuses groups mixing fuel with and without plutonium
+    types = rng.sample([c for c in LETTERS if c != "Z"], k)
+    bounds = [] if trial % 2 else [4.0, 9.0]
+    csm._setBuGroupBounds(list(bounds))
+    for a in w.core:
+        t = rng.choice(types)
+        for b in a:
+            b.p.xsType = t
+            b.p.envGroup = "A"
+            b.p.percentBu = rng.choice([0.0, 5.0, 12.0]) if b.hasFlags(w.Flags.FUEL) else 0.0
+            b.p.flux = 0.0
+    for b in allBlocks:
+        if not any(b is x for x in blocks):
+            b.p.xsType = types[0]
+    settingsBefore = set(csm.cs[CONF_CROSS_SECTION].keys())
+    with common.quiet():
+        csm.createRepresentativeBlocks()
+    reps = dict(csm.representativeBlocks)
+    for key in rng.sample(sorted(reps), min(len(reps) - 1, rng.randint(0, 2))):
+        del reps[key]                           # some groups have no original representative: their blocks are skipped
+    blockList = rng.sample(blocks, rng.randint(1, 40))
+    allocated = sorted({b.p.xsType for b in allBlocks})
+    before = {id(b): (b.p.xsType, b.p.envGroup, b.getMicroSuffix()) for b in blocks}
+    case = {"trial": trial, "typesInUse": len(allocated), "buBounds": bounds, "blockList": len(blockList), "originalRepresentatives": sorted(reps)}
+    mb = "[" + ",".join(f"[{ord(b.p.xsType)},{ord(b.p.envGroup)},1]" for b in blockList) + "]"
+    reqline = f"modids [{','.join(codes(a) for a in allocated)}] [{','.join(codes(r) for r in reps)}] {mb}"
+    try:
+        with common.quiet():
+            modified, origFromNew = csm._getModifiedReprBlocks(blockList, reps)
+        out = "[" + ",".join(f"[{codes(n)},{codes(o)}]" for n, o in origFromNew.items()) + "]"
+    except ValueError:
+        modified, origFromNew, out = None, None, "reject"
+        ctx.count("modified representatives refused: no XS type left")
+    if origFromNew is not None:
+        ctx.count(f"modified representatives: {len(origFromNew)} new ids with {len(allocated)} types in use")
+        news, origs = list(origFromNew.keys()), list(origFromNew.values())
+        if (len(set(origs)) != len(origs) or any(n[0] in allocated or n[0] not in LETTERS for n in news)
+                or any(n[1] != o[1] for n, o in origFromNew.items())
+                or len({(o[0], n[0]) for n, o in origFromNew.items()}) != len({o[0] for o in origs})
+                or len({n[0] for n in news}) != len({o[0] for o in origs})):
+            ctx.fail("modified-representative-ids", "modified representative blocks get unallocated admissible XS types, one per original type, "
+                     "and the map new id -> original id is one-to-one with the environment letter kept", case, observed=dict(origFromNew))
+        inList = {id(b) for b in blockList}
+        newOf = {o: n for n, o in origFromNew.items()}
+        for b in blocks:
+            t0, e0, s0 = before[id(b)]
+            wantType = newOf[s0][0] if (id(b) in inList and s0 in newOf) else t0
+            if (b.p.xsType, b.p.envGroup) != (wantType, e0):
+                ctx.fail("modified-representative-frame", "only the listed blocks of a group with an original representative move to the new XS "
+                         "type; every other block keeps its XS type and environment group", dict(case, block=b.getName()),
+                         observed=[b.p.xsType, b.p.envGroup], expected=[wantType, e0])
+                break
+        for n, o in origFromNew.items():
+            rep, src = modified[n], reps[o]
+            a, b_ = rep.getNuclideNumberDensities(w.allNucs), src.getNuclideNumberDensities(w.allNucs)
+            if rep is src or rep.p.xsType != n[0] or any(not math.isclose(x, y, rel_tol=1e-12, abs_tol=0.0) for x, y in zip(a, b_)):
+                ctx.fail("modified-representative-copy", "a modified representative is a copy of the original one under the new XS type", dict(case, new=n, orig=o))
+                break
+    ctx.case(("modified", trial), nontrivial=True)
+    for key in set(csm.cs[CONF_CROSS_SECTION].keys()) - settingsBefore:
+        del csm.cs[CONF_CROSS_SECTION][key]
+    for b in allBlocks:
+        b.p.xsType = "A"
+        b.p.envGroup = "A"
+    csm._setBuGroupBounds([])
+    if oracle_only:
+        return [], [], case
+    return ([reqline], [lambda line, case=case, out=out: line == out
+                        or ctx.disagree("new XS ids of modified representatives vs _getModifiedReprBlocks", case, line[:300], out[:300])], case)
+
+
+def trial_similarity(ctx, w, trial):
+    """_checkBlockSimilarity / _performAverageByComponent on copies of fuel blocks, some of them lacking a component (first, middle
+    or LAST in sorted order), with by-component averaging on or off; what createRepresentativeBlock then does with ragged members is
+    recorded as an observation (no clause of the property covers members without a matching component)"""
+    import copy
+
+    rng = random.Random(f"C20s-{ctx.seed}-{trial}")
+    xg = w.xg
+    with common.quiet():
+        bs = [copy.deepcopy(b) for b in rng.sample(w.fuel, rng.randint(1, 4))]
+    for b in bs:
+        b.setType("fuel")
+    mode = rng.choice(["intact", "intact", "drop-last", "drop-first", "drop-middle", "drop-last-of-template"])
+    victims = [] if mode == "intact" else ([bs[0]] if mode == "drop-last-of-template" else [rng.choice(bs)])
+    for b in victims:
+        comps = sorted(b.getComponents())
+        c = comps[-1] if "last" in mode else comps[0] if mode == "drop-first" else comps[len(comps) // 2]
+        b.remove(c)
+    abc = rng.random() < 0.8
+    bc = xg.AverageBlockCollection(w.allNucs, validBlockTypes=["fuel"], averageByComponent=abc)
+    for b in bs:
+        bc.append(b)
+    fls = [[int(c.p.flags) for c in sorted(b.getComponents())] for b in bc.getCandidateBlocks()]
+    try:
+        with common.quiet():
+            out = "T" if bc._performAverageByComponent() else "F"
+    except UnboundLocalError:
+        out = "reject"
+    case = {"trial": trial, "members": len(bs), "mode": mode, "averageByComponent": abc}
+    ctx.count(f"block similarity: {mode}, averageByComponent={abc} -> {out}")
+    ragged = len({len(f) for f in fls}) > 1
+    if not ragged and abc and out != "reject":
+        want = all(f == fls[-1] for f in fls)
+        if (out == "T") != want:
+            ctx.fail("by-component-choice", "by-component averaging is chosen exactly when the eligible members have the same component flags in the same order",
+                     case, observed=out, expected=want)
+    if ragged and out == "T":
+        try:
+            with common.quiet():
+                rep = bc.createRepresentativeBlock()
+            obs = f"representative with {len(rep.getComponents())} components from members with {sorted(len(f) for f in fls)}"
+        except IndexError:
+            obs = "IndexError in createRepresentativeBlock"
+        ctx.extra.setdefault("observation_ragged_members_by_component", collections.Counter())[obs] += 1
+    ctx.case(("similarity", trial), nontrivial=True)
+    line = "[" + ",".join("[" + ",".join(map(str, f)) + "]" for f in fls) + "]"
+    return ([f"similar {'T' if abc else 'F'} {line}"],
+            [lambda l, case=case, out=out: l == out or ctx.disagree("by-component decision vs _performAverageByComponent", case, l, out)], case)
+
+
 def run(ctx):
     import logging
 
@@ -812,6 +1566,32 @@ def run(ctx):
         for t in range(ctx.pick(25, 200)):
             r, c, _ = trial_reuse(ctx, w, t)
             req += r; checks += c
+        # continuation round: function-level ties and manager-level / 1-D streams
+        run_bounds(ctx, w)
+        run_eligible(ctx, w)
+        for t in range(ctx.pick(16, 96)):
+            r, c, _ = trial_updenv(ctx, w, t)
+            req += r; checks += c
+        for t in range(ctx.pick(16, 96)):
+            r, c, _ = trial_nextxs(ctx, w, t)
+            req += r; checks += c
+        for t in range(ctx.pick(20, 200)):
+            r, c, _ = trial_area_average(ctx, w, t)
+            req += r; checks += c
+        for t in range(ctx.pick(12, 100)):
+            r, c, _ = trial_cylinder(ctx, w, t)
+            req += r; checks += c
+        for t in range(ctx.pick(6, 40)):
+            r, c, _ = trial_manager(ctx, w, t)
+            req += r; checks += c
+        for t in range(ctx.pick(6, 48)):
+            r, c, _ = trial_modified(ctx, w, t)
+            req += r; checks += c
+        for t in range(ctx.pick(20, 150)):
+            r, c, _ = trial_similarity(ctx, w, t)
+            req += r; checks += c
+        if "observation_ragged_members_by_component" in ctx.extra:
+            ctx.extra["observation_ragged_members_by_component"] = dict(ctx.extra["observation_ragged_members_by_component"])
         model = lean_run("XsGroup", req)
         for line, fn in zip(model, checks):
             fn(line)
@@ -823,7 +1603,13 @@ def run(ctx):
                 "(compositions, temperatures, burnups, flux all-zero / all-positive / mixed, block-type filters, duplicates, "
                 "identical members) x {Average, Average by component, FluxWeightedAverage, flux-weighted by component, Median, "
                 "flux-weighted Median}; 2-4 step sequences on ONE reused collection (create, re-weight / resize / change burnups / append / "
-                "remove members, create again) compared with a fresh collection and the model at every step; groupings: seeded XS types / burnup and temperature boundaries over the whole core. "
+                "remove members, create again) compared with a fresh collection and the model at every step; groupings: seeded XS types (every fifth trial 27-52 types at once) / burnup and temperature boundaries over the whole core. "
+                "Continuation round: group-bound validation exhaustive over all lists of length <= 3 from pools with the critical values; eligibility for every distinct block-flag pattern x 15 filters; "
+                "whole-list environment update (1..61 burnup groups x temperature groups, blocks ON boundaries, disabled, > 52 groups refused); getNextAvailableXsTypes with 1..52 types allocated; "
+                "1-D cylinder collections (+ duct-heterogeneous) end to end and the cylinder/slab area-weighted average at function level (zero / all-zero weights); "
+                "CrossSectionGroupManager.createRepresentativeBlocks end to end through interactBOC, interactEveryNode again (same representatives), and again after block types changed: "
+                "groups without eligible member (re-assigned / orphan), pre-generated types, median and average types, blueprint-only blocks, burnup groups; members with a nuclide declared at density 0 "
+                "(trace) in some/all members, mass-less components (plain-mean fall-back), single-member groups. "
                 "distinct = labels + (trial, collection variant) + grouping trials; all non-trivial (real API compared with the model).")
 
 
@@ -844,6 +1630,30 @@ def search(ctx, disagreements, broken):
                 trial_grouping(sub, w, t)
             for t in range(1000, 1040):
                 trial_collections(sub, w, t, oracle_only=True)
+            # continuation-round streams: oracles of the disagreeing trials and of neighbouring seeds
+            whats = " ".join(d.what for d in disagreements)
+            ts = (trials or list(range(8)))[:16]
+            if not disagreements or any(k in whats for k in ("represented", "environment groups after", "blueprint")):
+                for t in ts[:8] + list(range(2000, 2004)):
+                    trial_manager(sub, w, t, oracle_only=True)
+            if not disagreements or any(k in whats for k in ("1-D", "area-weighted")):
+                for t in ts + list(range(2000, 2010)):
+                    trial_cylinder(sub, w, t, oracle_only=True)
+                    trial_area_average(sub, w, t)
+            if not disagreements or "whole-list" in whats:
+                for t in ts + list(range(2000, 2016)):
+                    trial_updenv(sub, w, t)
+            if not disagreements or "next available" in whats:
+                for t in ts + list(range(2000, 2016)):
+                    trial_nextxs(sub, w, t)
+            if not disagreements or "eligibility" in whats:
+                run_eligible(sub, w)
+            if not disagreements or "by-component decision" in whats:
+                for t in ts + list(range(2000, 2020)):
+                    trial_similarity(sub, w, t)
+            if not disagreements or "modified representatives" in whats:
+                for t in ts[:6] + list(range(2000, 2006)):
+                    trial_modified(sub, w, t, oracle_only=True)
     return sub.failures
 
 
@@ -877,7 +1687,23 @@ def replay(ctx, payload):
             if key.startswith("env-group"):
                 run_env_letters(sub, w)
             t = case.get("trial", 0) if isinstance(case, dict) else 0
-            if "buBounds" in case:
+            if key.startswith("eligibility"):
+                run_eligible(sub, w)
+            elif "orphanType" in case:
+                trial_manager(sub, w, t, oracle_only=True)
+            elif "originalRepresentatives" in case:
+                trial_modified(sub, w, t, oracle_only=True)
+            elif "mode" in case and "averageByComponent" in case and "members" in case and "collection" not in case:
+                trial_similarity(sub, w, t)
+            elif "enabled" in case:
+                trial_updenv(sub, w, t)
+            elif "allocatedOneLetter" in case:
+                trial_nextxs(sub, w, t)
+            elif "class" in case and "weights" in case:
+                trial_area_average(sub, w, t)
+            elif str(case.get("collection", "")).startswith("Cylindrical"):
+                trial_cylinder(sub, w, t, oracle_only=True)
+            elif "buBounds" in case:
                 trial_grouping(sub, w, t)
             elif "steps" in case:
                 trial_reuse(sub, w, t, oracle_only=True)
